@@ -12,10 +12,11 @@ rsync -a --exclude .git --exclude logs --exclude benchmarks /repo/ "$D/"
 (cd "$D" && PATH=/opt/veriftools/go1.26.8/bin:$PATH GOTOOLCHAIN=local GOFLAGS= go build ./... ) || { echo "PATCHED TREE DOES NOT BUILD"; exit 4; }
 HERE="$(cd "$(dirname "$0")/.." && pwd)"
 [ -x "$HERE/checker/vcheck" ] || "$HERE/setup.sh" >/dev/null
+VC="${VCHECK:-$HERE/checker/vcheck}"
 fired=0
 LIST="$(echo $PROPS | tr ' ' ',')"
 case "$LIST" in *,*) ;; *) LIST="$LIST,$LIST";; esac
-out="$(timeout 900 "$HERE/checker/vcheck" -prop "$LIST" -tier quick -repo "$D" -verif "$HERE" -nowrite 2>&1 || true)"
+out="$(timeout 900 "$VC" -prop "$LIST" -tier quick -repo "$D" -verif "$HERE" -nowrite 2>&1 || true)"
 for p in $PROPS; do
   printf '%s\n' "$out" | grep -q "^SUMMARY property=$p " || out="$out
 UNDECIDED  $p.internal:no-summary  the checker did not finish (crash or timeout)"
